@@ -797,6 +797,28 @@ func genTrace(prop string, seed uint64, run int, o genOpts) *Trace {
 		}
 	}
 
+	emitBattery := func(ti int, g *genTree) {
+		for _, op := range []string{"size", "min", "max", "all", "back"} {
+			emit(Step{T: ti, Op: op})
+		}
+		emit(Step{T: ti, Op: "topk", N: 3})
+		emit(Step{T: ti, Op: "botk", N: 3})
+		if g.kt.Kind != "collation" || prop == "C14" || prop == "C15" || prop == "C12" {
+			emit(Step{T: ti, Op: "range", K: g.newKey(r, false), K2: g.newKey(r, false)})
+			if g.kt.Kind == "alpha" || g.kt.Kind == "collation" {
+				emit(Step{T: ti, Op: "range", K: g.newKey(r, false)}) // open end
+			}
+		}
+		if g.kt.HasPrefix() {
+			emit(Step{T: ti, Op: "prefix", K: g.newKey(r, false)})
+			emit(Step{T: ti, Op: "prefix"})
+		}
+		if len(g.deleted) > 0 {
+			emit(Step{T: ti, Op: "get", K: pick(r, g.deleted)})
+			emit(Step{T: ti, Op: "del", K: pick(r, g.deleted)})
+		}
+	}
+
 	for len(tr.Steps) < budget {
 		// environment
 		if p.envRate > 0 && r.Intn(p.envRate) == 0 {
@@ -868,6 +890,13 @@ func genTrace(prop string, seed uint64, run int, o genOpts) *Trace {
 					} else {
 						g.deleted[r.Intn(256)] = clone(k)
 					}
+					if g.m.Len() == 0 {
+						// the tree has just been emptied by deletion: from now on it must behave
+						// like a new one — ask it everything once
+						emit(s)
+						emitBattery(ti, g)
+						continue
+					}
 				}
 			}
 		case "topk", "botk":
@@ -927,11 +956,7 @@ func genTrace(prop string, seed uint64, run int, o genOpts) *Trace {
 					emit(Step{T: ti, Op: "size"})
 				}
 			}
-			emit(Step{T: ti, Op: "min"})
-			emit(Step{T: ti, Op: "all"})
-			if g.kt.Kind != "collation" {
-				emit(Step{T: ti, Op: "range", K: g.newKey(r, false), K2: g.newKey(r, false)})
-			}
+			emitBattery(ti, g)
 			n := r.Intn(12)
 			for j := 0; j < n; j++ {
 				k := g.newKey(r, fanHeavy)
